@@ -497,6 +497,7 @@ func main() {
 		runAckCase(work, a)
 		gen.Emit(a)
 	}
+	gen.Emit(runStopped(work))
 	for _, c := range corpusCoord() {
 		gen.Emit(runCoord(c))
 	}
